@@ -1,0 +1,10 @@
+//go:build verif
+
+package handshake
+
+// Verification hook (build tag verif): re-exports existing identifiers only.
+
+// VerifHashToChallenge re-exports hashToChallenge.
+func VerifHashToChallenge(nonce1 uint64, nonce2 uint64) [32]byte {
+	return hashToChallenge(nonce1, nonce2)
+}
